@@ -73,7 +73,9 @@ Section Main.
     | TokOk t =>
         if negb (group_ok d aps t) then
           if opt then Ok (ONode None) (tpos t - length (tpre t))
-          else PErr (mkerr (Some (tpos t)) 7 (Some (NList (Some (tpos t)) (Some (tpos t)) [])) true (Some t) None)
+          else PErr (mkerr (Some (tpos t)) 7
+                           (Some (NList (Some (tpos t - length (tpre t))) (Some (tpos t - length (tpre t))) []))
+                           true (Some t) None)
                     (tend t)
         else
         match group_parsed (group_gps ps d) d t with
